@@ -20,6 +20,7 @@ From AV Require Import Base.Bytes Base.Outcome Hash.HashModel Tree.Heap Tree.Ops
 From AV Require Import Tree.Index Tree.IndexProofsAssoc Tree.IndexProofs Tree.Refs Tree.IndexProofsSetName Tree.IndexProofsBridge Tree.IndexProofsTiny.
 From AV Require Import Spec.SpecReal Tree.CheckFn Tree.IndexProofsTablesReal Tree.IndexProofsClosed Tree.IndexProofsTinyMove.
 From AV Require Import Tree.RefsAll Tree.IndexProofsNodeInv Tree.IndexProofsAll Tree.IndexProofsTinyCross.
+From AV Require Import Tree.SortProofsHeap Tree.SortProofsNames Tree.IndexProofsSort Tree.Copy Tree.IndexProofsDup.
 Import Tiny.
 Open Scope list_scope.
 Open Scope N_scope.
@@ -114,8 +115,11 @@ Proof. exact C04_C05_history_x_rt. Qed.
 
 (* ---------- all 26 constructors (no pending constructor).  Moves between two models (move_element_full) are covered; the
    finding classes are Known04a / Known05a of Tree/RefsAll.v (Known04 without the side condition on the type of a model root,
-   Known05 plus the two-model form of the container-move collision `collision_x`, and for copies the result condition
-   copy_clean_a = copy_clean without the duplicate check on the referrers, which is derived: Tree/IndexProofsCopyA.v).  RX (Tree/IndexProofsNodeInv.v: every reference element
+   Known05 plus the two-model form of the container-move collision `collision_x`; for copies Known04a has K04-front and
+   late_short, and Known05a the result condition copy_clean_b: nobody twice in the walk of the copy, no two identifiable elements of
+   the copy with one path, and for a copy that is not identifiable itself no path of an element inside it already in the
+   destination's index - the other conditions of copy_clean (left-over leaves of dropped sub-elements, '/'-free new name,
+   character leaves, names of identifiable copies) are derived from the source world: Tree/IndexProofsCopyA.v, IndexProofsCopyB.v).  RX (Tree/IndexProofsNodeInv.v: every reference element
    holds string data, every model root has a type that is neither named nor a reference type) is kept by every operation
    without any exception class and holds in the empty world. *)
 Theorem C04_nodes_inv :
@@ -158,6 +162,30 @@ Theorem C04_history_all_real :
   run_ops RT tab_el tab_en (check_fn_model dfas) LATEST root_attrs l empty_world = Val w' ->
   TreeFacts w' /\ Inv04 RT (check_fn_model dfas) w' /\ Inv05 RT w'.
 Proof. exact C04_C05_history_all_rt. Qed.
+
+(* ---------- sort and duplicate (op2).
+   Sort: agent-c14's relation `kept` (Tree/SortProofsNames.v: maps, parents, names, types untouched; content lists unchanged or - for
+   types without character data - permuted; the SHORT-NAME child of a named element stays in front) carries both invariants, given
+   NameFirst (a SHORT-NAME child of a named element is its first and only one).
+   Duplicate: new model + files + one copy per root child; under dup_clean (the finding classes of C03/C04/C05 of the copy
+   steps, decided along the run) the invariants hold afterwards - also after a failed duplicate, whose model is dropped. *)
+Theorem C04_sort :
+  forall (T : tables) (check_fn : N -> list N -> res bool) (w w' : world),
+  TreeFacts w /\ Inv04 T check_fn w /\ Inv05 T w -> kept T w w' -> NameFirst T w ->
+  TreeFacts w' /\ Inv04 T check_fn w' /\ Inv05 T w'.
+Proof. exact sort_j5. Qed.
+
+Theorem C04_duplicate :
+  forall (T : tables) (tab_el tab_en : nametab) (check_fn : N -> list N -> res bool) (LATEST : N)
+         (root_attrs : list (N * cdata)),
+  TablesOK T check_fn ->
+  (forall ty, et_new T (autosar_element T) = Val ty -> plainty T ty) ->
+  forall (m : N) (w : world) (r : out N) (w' : world),
+  TreeInv w /\ Inv04 T check_fn w /\ Inv05 T w /\ RX T w ->
+  dup_clean T tab_el tab_en check_fn LATEST root_attrs w m = true ->
+  m_duplicate T tab_el tab_en check_fn LATEST root_attrs m w = Val (r, w') ->
+  Inv04 T check_fn w' /\ Inv05 T w' /\ RX T w' /\ (forall c, r = OK c -> TreeInv w').
+Proof. exact C45_duplicate. Qed.
 
 Theorem C04_lookup :
   forall (T : tables) (check_fn : N -> list N -> res bool) (w : world) (m : N) (p : list N) (r : out (option id)) (w' : world),
@@ -299,3 +327,17 @@ Example C04_move_cross_container_refuted :
   (exists w', Tiny.run x2_op (wof x3_pre) = Val (OK (VElem 4), w')) /\
   ~ Inv04 tiny tiny_check_fn (wof (x3_pre ++ [x2_op])).
 Proof. exact K05_move_cross_container_refuted. Qed.
+
+(* ---------- copies under the classes of the all-constructor statement; duplicate of the demo model *)
+Example C04_copy_container_in_class :
+  Known04a tiny LATEST (wof cc_pre) cc_op = false /\ Known05a tiny tiny_el tiny_en tiny_check_fn LATEST [] (wof cc_pre) cc_op = true.
+Proof. exact copy_container_in_class. Qed.
+
+Example C04_duplicate_demo :
+  dup_clean tiny tiny_el tiny_en tiny_check_fn LATEST [] (wof demo) 0 = true /\
+  exists w', m_duplicate tiny tiny_el tiny_en tiny_check_fn LATEST [] 0 (wof demo) = Val (OK 1, w') /\
+    (Inv04 tiny tiny_check_fn w' /\ Inv05 tiny w') /\
+    idents_of w' 0 = [(BS "/A", 2); (BS "/A/S", 5); (BS "/B", 8)] /\
+    idents_of w' 1 = [(BS "/A", 12); (BS "/A/S", 15); (BS "/B", 18)] /\ origins_list w' 1 = [(BS "/B", [17])].
+Proof. exact dup_demo_summary. Qed.
+
